@@ -182,6 +182,11 @@ type rSim struct {
 	inflight, placed, foreign map[string]bool
 	everSched               map[string]bool
 	globDeleted             map[string]bool // reservation uids the global handler has already deleted from the cache
+	// reservation uids that a delete+add merged into one update has replaced by a namesake, where the global
+	// handler has already handled that update and has not deleted the old uid (neither then nor earlier): no
+	// later event of either listener will ever issue a DeleteReservation for it
+	globReplacedKept map[string]bool
+	lateReplaced     bool // the plugin-side route of "reservation-replaced-in-merged-update-unhandled" was taken
 	drainUntil              bool
 
 	// C19 mode (resv_c19_verif_test.go)
@@ -203,7 +208,7 @@ func newStream(typ string, listeners ...string) *stream {
 
 func (resvEngine) Execute(r *sim.Run) {
 	s := &rSim{r: r, st: newRStore(), model: newRModel(), nodes: map[string]*framework.NodeInfo{},
-		inflight: map[string]bool{}, placed: map[string]bool{}, foreign: map[string]bool{}, everSched: map[string]bool{}, globDeleted: map[string]bool{}}
+		inflight: map[string]bool{}, placed: map[string]bool{}, foreign: map[string]bool{}, everSched: map[string]bool{}, globDeleted: map[string]bool{}, globReplacedKept: map[string]bool{}}
 	r.Plan.GetCfg(&s.cfg)
 	r.Plan.GetOps(&s.ops)
 	s.c19 = r.Prop == "C19"
@@ -284,6 +289,11 @@ func (resvEngine) Execute(r *sim.Run) {
 		r.HarnessFail("driver stopped in a non-quiescent state")
 	}
 	s.checkQuiescent()
+	if s.lateReplaced {
+		// exactness monitor of the plugin-side tag route: every such history must have failed by now
+		// (the replaced uid is in the cache for good); must stay at zero
+		s.r.Probe("replaced-uid-cached-after-global-passed:run-ended-green")
+	}
 	if s.c19 && s.anyBind {
 		s.fork("end-of-history")
 	}
@@ -470,6 +480,17 @@ func (s *rSim) deliverPlug() string {
 		// has already removed it from the cache for a later termination/deletion: the entry is resurrected
 		s.tag("reservation-event-after-global-delete")
 	}
+	if n, ok := ev.newS.(*sResv); ok && n.active() && s.globReplacedKept[n.uid()] {
+		// history class of finding "reservation-replaced-in-merged-update-unhandled", seen from the plugin's side:
+		// the global handler (the faster listener here) has already handled the merged update that replaced this
+		// uid by a namesake and matched none of its deleting transition cases; the plugin's listener now handles
+		// an older active add/update of the replaced uid and puts it into the cache, where its own handling of the
+		// merged update (updateReservation(new) only) leaves it. Same (old, new) pair, same outcome as when the
+		// plugin's listener is the faster one (tagged in deliverGlob); only the order of the two listeners differs.
+		s.r.Probe("replaced-uid-cached-after-global-passed")
+		s.lateReplaced = true
+		s.tag("reservation-replaced-in-merged-update-unhandled")
+	}
 	switch ev.kind {
 	case "add":
 		n := ev.newS.(*sResv)
@@ -558,6 +579,12 @@ func (s *rSim) deliverGlob() string {
 			// none of the global handler's transition cases that delete the old object (old Waiting or terminated,
 			// or old Available and new Waiting): no handler removes the old uid
 			s.tag("reservation-replaced-in-merged-update-unhandled")
+		}
+		if o.uid() != n.uid() && !s.globDeleted[o.uid()] {
+			// the same class when the plugin's listener lags behind this one: the old uid is not cached yet, but an
+			// older active add/update of it is still on its way to the plugin's listener (evaluated there, when and
+			// if it is handled: deliverPlug)
+			s.globReplacedKept[o.uid()] = true
 		}
 	case "delete":
 		o := ev.oldS.(*sResv)
